@@ -18,6 +18,9 @@ package slice
 //@   ensures [C14.slice.append.len] result == len(at(L, s.data)) + len(items) && len(at(U, s.data)) == result
 //@   ensures [C14.slice.append.old] forall i :: 0 <= i && i < len(at(L, s.data)) ==> at(U, s.data[i]) == at(L, s.data[i])
 //@   ensures [C14.slice.append.new] forall i :: 0 <= i && i < len(items) ==> at(U, s.data[len(at(L, s.data)) + i]) == at(L, items[i])
+// the container owns its storage: after Append the backing array is the one it had or a newly allocated one, never
+// memory handed in by the caller (whose later writes would change the content without any operation of the slice)
+//@   ensures [C14.slice.append.owned] at(U, s.data).base == at(L, s.data).base || at(U, fresh(s.data))
 //@   at call Lock#0 label L
 //@   at before call Unlock#0 label U
 
